@@ -11,6 +11,16 @@ CLAIMED = {
     design='5 C01',
     note='Trusted: z3, object-dtype NumPy, reference densities, mechanistic stub (uninterpreted Y keyed by output and time). ODE solver outside. Bounds: <=2 (3) outputs, <=2 (3) observations per output over 3 (4) distinct times.',
     technique='symbolic execution of the real code on z3 reals with an uninterpreted solution functional + SMT validity queries over exhaustively enumerated time-grid order types'),
+ 'C02': dict(
+    text='Bounded symbolic verification of chi.HierarchicalLogLikelihood/-Posterior: for every composition of population sub-models within the bound and all real vectors/data/covariates, z3 decides that the value equals sum_i LL_i(psi_i) + population log-density as rebuilt by a specification interpreter that reads only the published names and IDs (pooled, heterogeneous, non-centred, covariate, fixed-parameter semantics from the documentation).',
+    design='5 C02',
+    note='Trusted: z3, canonical linear abstraction (chisym/canon.py, sound first stage), object-dtype NumPy, chi.LogLikelihood as the per-individual reference (decided by C01), documented naming conventions. Bounds: <=2 (3) sub-models, total dimension 2 (3), 2 (1-3) individuals, <=1 (2) covariates.',
+    technique='symbolic execution of the real code on z3 reals + names-driven specification interpreter + SMT validity queries over exhaustively enumerated compositions'),
+ 'C03': dict(
+    text='Bounded symbolic verification that evaluateS1 returns the plain score and, entry by entry, the symbolic derivative of the __call__ term with respect to the flat vector, for LogLikelihood, LogPosterior, HierarchicalLogLikelihood and HierarchicalLogPosterior (uninterpreted mechanistic model and prior with declared partials), in both call orders, with fixed parameters and covariates; outside the support both evaluations are non-finite.',
+    design='5 C03',
+    note='Trusted: z3, canonical linear abstraction, symbolic differentiator (cross-checked against central differences of the float code per configuration). Bounds as C01/C02.',
+    technique='symbolic execution on z3 reals + symbolic differentiation of the value term as oracle + SMT validity queries'),
  'C04': dict(
     text='Bounded symbolic verification: the real error-model classes are executed on symbolic reals and z3 decides, for all real parameters/outputs/observations/sensitivities, that value, pointwise values and sensitivities equal the documented log-densities and their derivatives, that the density is the push-forward of N(0,1) through the documented generative map (normalisation), and that out-of-support inputs score -inf; for n_obs <= 3 (quick) / 5 (thorough) and sensitivity width <= 2 / 3.',
     design='5 C04',
